@@ -271,7 +271,7 @@ def rule_wire(ctx):
     from . import c01
     from ..report import Ctx
     scratch = Ctx(ctx.repo, "C01", ctx.tier)
-    for r in ("C01.tags", "C01.int", "C01.class", "C01.pack", "C01.dbl", "C01.unpack", "C01.count", "C01.dict"):
+    for r in ("C01.tags", "C01.int", "C01.class", "C01.pack", "C01.dbl", "C01.unpack", "C01.count", "C01.dict", "C01.str", "C01.node", "C01.layer"):
         scratch.rule(r, "", 0)
     widths = c01.rule_int(scratch)
     c01.rule_class(scratch, widths)
@@ -282,7 +282,9 @@ def rule_wire(ctx):
         c01.rule_unpack(scratch, tables)
     c01.rule_count(scratch)
     c01.rule_dict(scratch)
-    ctx.adopt(scratch, {r: "C09.wire" for r in ("C01.tags", "C01.int", "C01.class", "C01.pack", "C01.dbl", "C01.unpack", "C01.count", "C01.dict")})
+    for fn_ in (c01.rule_str, c01.rule_node, c01.rule_layer):
+        ctx.guarded("C09.wire", fn_, scratch)
+    ctx.adopt(scratch, {r: "C09.wire" for r in ("C01.tags", "C01.int", "C01.class", "C01.pack", "C01.dbl", "C01.unpack", "C01.count", "C01.dict", "C01.str", "C01.node", "C01.layer")})
 
 
 def run(ctx):
@@ -355,7 +357,15 @@ def run(ctx):
     ctx.guarded("C09.codec_sent", rule_codec_sent, ctx, repo)
 
 
-def rule_codec_sent(ctx, repo):
+def tagtext(nn):
+    return nn.tag[1] if nn.tag is not None and nn.tag[0] == "c" else "?"
+
+
+def rule_codec_sent_only(ctx, repo):
+    return rule_codec_sent(ctx, repo, only=True)
+
+
+def rule_codec_sent(ctx, repo, only=False):
     """entities the stack forwards downward: their serialisation must be acceptable to the binary codec"""
     from ..routing import concrete_entity_classes
     from .c06 import load_routing, zero_reason
@@ -387,29 +397,42 @@ def rule_codec_sent(ctx, repo):
         if not good:
             ctx.note("%s: serialisation of a default-constructed entity raises (%s): not analysed for C09.codec" % (cls.name, (cells[0][1]["raised"] or "")[:60]))
             continue
-        node = good[0]["node"]
-        it = good[0]["it"]
         n += 1
         label = "%s.toProtocolTreeNode()" % cls.name
-        if node[0] != "node":
-            ctx.violate("C09.ret", w, label, "an entity the stack sends serialises to %s instead of a node" % show(node))
-            continue
         probs = []
-        for path, nn in walk_out(node[1]):
-            for key, v in nn.attrs.items():
-                if v[0] == "c" and not isinstance(v[1], (str, type(None))):
-                    probs.append("%s[%s] is the %s %r" % ("/".join(path) or cls.name, key, type(v[1]).__name__, v[1]))
-                elif v[0] == "fn" and v[1] in ("int", "len", "float"):
-                    probs.append("%s[%s] is %s(...), not a string" % ("/".join(path) or cls.name, key, v[1]))
-            d = nn.data
-            if d[0] == "c" and isinstance(d[1], str):
-                probs.append("data of <%s> is the str %r, not bytes" % ("/".join(path) or cls.name, d[1]))
-            if nn.tag is not None and (nn.tag[0] in ("dict", "list") or (nn.tag[0] == "c" and not isinstance(nn.tag[1], (str, type(None))))):
-                probs.append("a %s is used as node tag" % nn.tag[0])
-        if it.api_misuse:
-            probs += sorted({t for _, t in it.api_misuse})
-        ctx.check("C09.codec", not probs, w, label, "; ".join(probs[:3]) + " (the encoder needs strings for tags/attributes and bytes for data)", "no definitely mistyped tag, attribute value or data")
+        bad_ret = None
+        BYTES_FNS = ("b64encode", "urlsafe_b64encode", "standard_b64encode", "hexlify", "digest", "encode")
+        for rs in good:                      # every cell of the constructor's arguments, not only the default one
+            node, it = rs["node"], rs["it"]
+            if node[0] != "node":
+                bad_ret = node
+                break
+            for path, nn in walk_out(node[1]):
+                for key, v in nn.attrs.items():
+                    if v[0] == "c" and not isinstance(v[1], (str, type(None))):
+                        probs.append("%s[%s] is the %s %r" % ("/".join(path) or cls.name, key, type(v[1]).__name__, v[1]))
+                    elif v[0] == "fn" and v[1] in ("int", "len", "float"):
+                        probs.append("%s[%s] is %s(...), not a string" % ("/".join(path) or cls.name, key, v[1]))
+                    elif v[0] == "fn" and v[1] in BYTES_FNS:
+                        probs.append("%s[%s] is the bytes result of %s(...): the encoder writes it, the decoder hands back a str, and the stanza no longer equals what was sent" % ("/".join(path) or cls.name, key, v[1]))
+                d = nn.data
+                if d[0] == "c" and isinstance(d[1], str):
+                    probs.append("data of <%s> is the str %r, not bytes" % ("/".join(path) or cls.name, d[1]))
+                kids = [c for kk, c in nn.children if isinstance(c, Node)]
+                if kids and not (d[0] == "c" and d[1] is None) and d != C_NONE:
+                    probs.append("<%s> carries both content and %d child node(s): the format has room for one of them - the frame announces an even item count the decoder reads as attributes only" % ("/".join(path) or tagtext(nn), len(kids)))
+                if nn.tag is not None and (nn.tag[0] in ("dict", "list") or (nn.tag[0] == "c" and not isinstance(nn.tag[1], (str, type(None))))):
+                    probs.append("a %s is used as node tag" % nn.tag[0])
+            if it.api_misuse:
+                probs += sorted({t for _, t in it.api_misuse})
+        if bad_ret is not None:
+            ctx.violate("C09.ret", w, label, "an entity the stack sends serialises to %s instead of a node" % show(bad_ret))
+            continue
+        probs = sorted(set(probs))
+        ctx.check("C09.codec", not probs, w, label, "; ".join(probs[:3]) + " (the encoder needs strings for tags/attributes and bytes for data)", "no definitely mistyped tag, attribute value or data (%d cell(s))" % len(good))
     ctx.units["C09.sent_classes_analysed"] = n
+    if only:
+        return
     ctx.guarded("C09.wire", rule_wire, ctx)
     ctx.guarded("C09.fresh", rule_fresh, ctx)
     ctx.guarded("C09.payload", rule_payload, ctx)
